@@ -266,15 +266,26 @@ Definition resolve (m : mw) (s : wsrc) : wire :=
 Definition sjar := list (string * wsrc).
 Definition resolve_jar (m : mw) (j : sjar) : jar := map (fun nv => (fst nv, resolve m (snd nv))) j.
 
+(* CookieRequestTracker.TrackRequest, choice of the index: the random draw,
+   unless a RelayStateFunc is installed AND returns a non-empty value
+   ("" means: use the random index) *)
+Definition track_index (custom : option string) (rnd : string) : string :=
+  match custom with
+  | Some s => if nonempty s then s else rnd
+  | None => rnd
+  end.
+
+(* [custom]: None = Options.RelayStateFunc is nil, Some v = it returned v for this request;
+   [rnd]: base64url of the 42 RandReader bytes *)
 Inductive saction :=
-| SStart (u idx rid : string)
-| SPage (u : string) (j : sjar) (idx rid : string)
+| SStart (u : string) (custom : option string) (rnd rid : string)
+| SPage (u : string) (j : sjar) (custom : option string) (rnd rid : string)
 | SDeliver (r : response) (j : sjar) (relay : string) (req_https : bool)
 | SAdvance (dt : Z).
 Definition resolve_action (m : mw) (a : saction) : action :=
   match a with
-  | SStart u i r => Start u i r
-  | SPage u j i r => Page u (resolve_jar m j) i r
+  | SStart u c i r => Start u (track_index c i) r
+  | SPage u j c i r => Page u (resolve_jar m j) (track_index c i) r
   | SDeliver r j relay h => Deliver r (resolve_jar m j) relay h
   | SAdvance dt => Advance dt
   end.
@@ -373,6 +384,16 @@ Definition faithful_delivery (m : mw) (r : response) (j : jar) (relay : string) 
     end
   else None.
 
+(* a flow start: exactly one tracking cookie; the RelayState handed to the IdP is
+   the index signed inside it (and, by cookie_flags_ok, the cookie-name suffix);
+   that index is NOT EMPTY — each flow is tracked under a cookie of its own and
+   comes back with a RelayState naming it; the recorded URI is the requested one *)
+Definition started_flow_ok (u : string) (o : oreply) : bool :=
+  match or_cookies o with
+  | [c] => (oc_kind c =? 1) && String.eqb (or_relay o) (oc_a c) && String.eqb (oc_c c) u && nonempty (oc_a c)
+  | _ => false
+  end.
+
 Definition spec_step (m : mw) (a : action) (o : oreply) : bool :=
   let cfg := mw_cfg m in
   match a with
@@ -396,15 +417,12 @@ Definition spec_step (m : mw) (a : action) (o : oreply) : bool :=
          end
   | Start u idx rid =>
       forallb (cookie_flags_ok cfg false) (or_cookies o) && negb (o_sets_session o)
-      && match or_cookies o with
-         | [c] => (oc_kind c =? 1) && String.eqb (or_relay o) (oc_a c) && String.eqb (oc_c c) u
-         | _ => false
-         end
+      && started_flow_ok u o
   | Page u j idx rid =>
       forallb (cookie_flags_ok cfg false) (or_cookies o) && negb (o_sets_session o)
       && (if or_ran o then                                                                                (* C16 gate inside histories *)
             match get_session (m_session_name cfg) (m_scodec cfg) (mw_clock m) j with Some _ => true | None => false end
-          else true)
+          else started_flow_ok u o)
   | Advance _ => true
   end.
 
